@@ -276,6 +276,27 @@ def grid_for_type(ctx, t):
             judge_call(ctx, t, name, 1 if name != 'data' else (1,), False, entry)
             ctx.nontrivial((t, name, 'foreign', entry))
             n += 1
+    # a name without a value, a value without a name, a lone '=': refused as a ValueError like any other bad text
+    for name in list(midi1.ATTRS[t]) + ['time']:
+        for text in (f'{t} {name}=', f'{t} ={name}', f'{t} =', f'{t} {name}', f'{t} {name}==1', f'{t} {name}=1=2'):
+            for entry in TEXT_ENTRY:
+                case_e = {'kind': 'empty-value', 'type': t, 'text': text, 'entry': entry}
+                try:
+                    if entry == 'from_str':
+                        r = Message.from_str(text)
+                    elif entry == 'parse_string':
+                        r = mido.parse_string(text)
+                    else:
+                        import io
+                        (r, err), = list(mido.parse_string_stream(io.StringIO(text + '\n')))
+                        if r is None:
+                            raise ValueError(err)
+                    ctx.check('out-of-domain rejected', False, f'{entry}:malformed-pair-accepted', case_e, rv(r))
+                except ValueError:
+                    ctx.count('out-of-domain rejected')
+                except Exception as exc:
+                    ctx.check('exception class', False, f'{entry}:malformed-pair:{type(exc).__name__}', case_e, f'{type(exc).__name__}: {exc}')
+                n += 1
     # names of parameters of the constructor and of internal helpers are not attributes either: in a
     # text or a dict they must not switch anything off
     ints = [a for a in midi1.ATTRS[t] if a != 'data']
@@ -556,7 +577,7 @@ def replay(ctx, case):
         return
     if k == 'history':
         history(ctx, case['type'], case['seed'], case['steps'])
-    elif k in ('grid', 'delattr', 'type-attr'):
+    elif k in ('grid', 'delattr', 'type-attr', 'empty-value', 'param-name'):
         grid_for_type(ctx, case['type'])
     else:
         unknown_types(ctx)
